@@ -87,7 +87,8 @@ pub fn check(ctx: &Ctx, genome: &[u16]) -> CaseReport {
             // ... but not beyond the glyph's own outermost masters: there its own values (advance, offsets) are an
             // extrapolation (OpenType regions end at the outermost master, the value drops back to the default), which
             // no added master can reproduce on both sides, so the storage forms legitimately differ
-            let inside_own_span = (0..n_axes).all(|a| { let vals: Vec<f64> = gl.sources.keys().map(|k| f.sources[*k].norm[a]).collect(); let (lo, hi) = (vals.iter().cloned().fold(f64::MAX, f64::min), vals.iter().cloned().fold(f64::MIN, f64::max)); s.norm[a] >= lo && s.norm[a] <= hi });
+            // (on a side of an axis where the glyph has no master of its own its values are simply the default's: no ambiguity)
+            let inside_own_span = (0..n_axes).all(|a| { let l = s.norm[a]; if l == 0.0 { return true; } let far = gl.sources.keys().map(|k| f.sources[*k].norm[a]).filter(|m| *m * l > 0.0).fold(0.0f64, |x, m| x.max(m.abs())); far == 0.0 || l.abs() <= far });
             if everywhere || uniform || (somewhere && inside_own_span) { locs.push((s.norm.clone(), si == 0)); }
         }
         if uniform { for x in &extra { locs.push((x.clone(), false)); } }
@@ -141,5 +142,5 @@ pub fn check(ctx: &Ctx, genome: &[u16]) -> CaseReport {
 pub fn parts() -> Vec<Part> {
     vec![Part { name: "options", genome_len: 1400, cases_quick: 120, cases_thorough: 1500, threads: 12, max_shrink_iters: 150, check: Box::new(check), remote: None }]
 }
-pub const RULE: &str = "genome -> SynthFont biased to components (nested to depth 3, scaled / flipped / rotated / sheared / >2.0 scale, mixed contour+component, non-export bases, per-master offsets, sparse glyphs); built with the default flags and 5 other (quick) / all 15 other (thorough) subsets of {flatten, decompose, decompose-transformed, prefer-simple off}; every exported glyph resolved through its components (own glyf + gvar + IUP evaluator) at every source location of the glyph or any transitive component that lies within the span of the glyph's own masters (anywhere when all of them have a source there or share one source set, then also at 2 interior locations); contours matched up to start point / direction / implied points, advances from hmtx+HVAR. non-trivial = source has a nested or transformed component and at least one glyph is stored as a composite in one build and as a simple glyph in another";
+pub const RULE: &str = "genome -> SynthFont biased to components (nested to depth 3, scaled / flipped / rotated / sheared / >2.0 scale, mixed contour+component, non-export bases, per-master offsets, sparse glyphs); built with the default flags and 5 other (quick) / all 15 other (thorough) subsets of {flatten, decompose, decompose-transformed, prefer-simple off}; every exported glyph resolved through its components (own glyf + gvar + IUP evaluator) at every source location of the glyph or any transitive component that does not lie beyond the glyph's own outermost master on a side of an axis where it has one (anywhere when all of them have a source there or share one source set, then also at 2 interior locations); contours matched up to start point / direction / implied points, advances from hmtx+HVAR. non-trivial = source has a nested or transformed component and at least one glyph is stored as a composite in one build and as a simple glyph in another";
 pub const ASSUMPTIONS: &[&str] = &["tolerance between two builds = 2 x (r + norm(2x2) x bound(base)) accumulated over the component tree, r = 0.5 at the default location and 0.5 + 0.5 x sum of active region scalars elsewhere (each stored coordinate is rounded once; IUP tolerance 0.5 per region)", "glyphs with a cubic glyph in their component closure are compared by sampled Hausdorff distance with cu2qu tolerance (upem/1000 per conversion, scaled through the transforms)", "locations where a transitive component has no source of its own are compared only when the whole closure shares one source set (otherwise the two storage forms legitimately interpolate different things)"];
